@@ -42,7 +42,7 @@ def native_checks(tier, seed):
         b, s, got = bad[0]
         script = f'''
 import sys
-sys.path.insert(0, "/repo")
+sys.path.insert(0, __import__("os").environ.get("PVC_REPO", "/repo"))
 from ptera.selector import parse
 a, b = parse({b!r}), None
 try:
